@@ -102,6 +102,8 @@ func cmdRun(args []string) int {
 	noReplay := fs.Bool("no-replay", false, "skip native replay")
 	solverKind := fs.String("solver", "z3-new", "z3|z3-new|cvc5")
 	mapPerm := fs.Int("map-perm", 4, "max map entries under symbolic iteration order")
+	orderPol := fs.Int("order-policies", 0, "global map-order policies per path instead of all permutations")
+	byteEnum := fs.Bool("byte-enum", false, "decide single-byte branch feasibility by enumeration")
 	fs.Parse(args)
 	var ps []int64
 	if *params != "" {
@@ -132,7 +134,7 @@ func cmdRun(args []string) int {
 	}
 	defer s.Close()
 	fmt.Fprintf(os.Stderr, "loaded+init in %.1fs\n", time.Since(t0).Seconds())
-	rep := s.Explore(driver.Case{Pkg: *pkg, Func: *fn, Params: ps, MaxPaths: *maxPaths, WitnessEvery: 50, MaxMapPerm: *mapPerm})
+	rep := s.Explore(driver.Case{Pkg: *pkg, Func: *fn, Params: ps, MaxPaths: *maxPaths, WitnessEvery: 50, MaxMapPerm: *mapPerm, ByteEnum: *byteEnum, OrderPolicies: *orderPol})
 	rep.Print(os.Stdout, *show)
 	fmt.Printf("  solver: %+v\n", s.SolverTotals())
 	if !*noReplay {
